@@ -8,6 +8,11 @@ from typing import Any, Dict, Iterable, List, Optional
 from harness.core import Case, Check, Finding, call
 
 MATRIX_MAX = 12   # pairwise relation matrices are compared for line sets up to this size
+# the oracle's reading of "aligned rows": baselines of the cells of one row lie within this many pixels of each
+# other.  It is a number of the STATEMENT's reading, not of the code: the model takes the tolerance of
+# `is_next_to` from the source (Generated/C15.lean), and `C15_consts_row_tolerance_covers_spec` (specRowTol in
+# Props/C15.lean, the same 10) is the obligation that the source's tolerance is at least this.
+SPEC_ROW_TOL = 10
 
 
 def _real():
@@ -163,7 +168,8 @@ def _baseline_inside(s) -> bool:
 
 
 def grid_is_clean(cells) -> bool:
-    """cells: line specs with 'row' and 'col'. Mirrors the Lean predicate CleanGrid."""
+    """cells: line specs with 'row' and 'col'. Mirrors the Lean predicate CleanGrid at the row tolerance
+    SPEC_ROW_TOL (the Lean predicate uses the tolerance of the source, which has to be at least that)."""
     for s in cells:
         if not _valid_line(s) or not _baseline_inside(s):
             return False
@@ -185,7 +191,7 @@ def grid_is_clean(cells) -> bool:
                     return False
                 _, at, _, ab = _bl_box(a['bl'])
                 _, bt, _, bb = _bl_box(b['bl'])
-                if at > bb + 10 or ab < bt - 10:
+                if at > bb + SPEC_ROW_TOL or ab < bt - SPEC_ROW_TOL:
                     return False
     return True
 
@@ -376,6 +382,48 @@ class C15(Check):
     ]
     nontrivial_rule = ('distinct inputs; non-trivial = at least two lines (lines/grid), at least two regions (tree/regions), '
                        'or a baseline pair with at least three points in total')
+
+    # ---------------------------------------------------------------- constants regenerated from the source
+    def translate(self):
+        """the numeric literals the model depends on, read from the working tree with `ast` on every run"""
+        from harness import translate as tr
+        dm = 'pagexml/model/pagexml_document_model.py'
+        co = 'pagexml/model/coords.py'
+        nxt = 'PageXMLTextLine.is_next_to'
+        max_h = tr.as_int(tr.literal_in(dm, nxt, 'get_horizontal_overlap(self, other) > _N0'))
+        tol_top = tr.as_int(tr.literal_in(dm, nxt, 'self.baseline.top > other.baseline.bottom + _N0'))
+        tol_bottom = tr.as_int(tr.literal_in(dm, nxt, 'self.baseline.bottom < other.baseline.top - _N0'))
+        ratios = tr.literals_in(dm, 'sort_lines', 'vertical_ratio < _N0 and horizontal_ratio > _N1')[0]
+        below = tr.literal_in(co, 'baseline_is_below', 'num_below / num_overlap > _N0')
+        # PageXMLTextRegion.__lt__ calls is_horizontally_overlapping(self, other): literal passed, or the default
+        reg_thr = tr.effective_argument(dm, 'PageXMLTextRegion.__lt__', 'is_horizontally_overlapping', 'threshold', 2, dm)
+        # PageXMLTextLine.__lt__ calls sort_lines(self, other, as_column=True): the model fixes as_column = true
+        fn = tr.find_def(tr.parse_file(dm), 'PageXMLTextLine.__lt__')
+        import ast
+        as_col = [k.value for n in ast.walk(fn) if isinstance(n, ast.Call) and isinstance(n.func, ast.Name)
+                  and n.func.id == 'sort_lines' for k in n.keywords if k.arg == 'as_column']
+        if len(as_col) != 1 or tr.literal(as_col[0]) is not True:
+            raise tr.TranslateError('PageXMLTextLine.__lt__: expected one call sort_lines(..., as_column=True)')
+        body = tr.HEADER.format(
+            src=f'{dm}: PageXMLTextLine.is_next_to (overlap limit, two baseline tolerances), sort_lines (two ratios), '
+                f'PageXMLTextRegion.__lt__ -> is_horizontally_overlapping (threshold); {co}: baseline_is_below (ratio)') + (
+            'namespace Pagexml.Generated.C15\n\n'
+            '/-- `is_next_to`: `get_horizontal_overlap(self, other) > N` means "not next to" -/\n'
+            f'def nextToMaxHOverlap : Int := {tr.lean_int(max_h)}\n\n'
+            '/-- `is_next_to`: `self.baseline.top > other.baseline.bottom + N` means "not next to" -/\n'
+            f'def nextToTolTop : Int := {tr.lean_int(tol_top)}\n\n'
+            '/-- `is_next_to`: `self.baseline.bottom < other.baseline.top - N` means "not next to" -/\n'
+            f'def nextToTolBottom : Int := {tr.lean_int(tol_bottom)}\n\n'
+            '/-- `sort_lines`: `vertical_ratio < p/q` (first half of the "side by side" test) -/\n'
+            f'def sortLinesVRatio : Int × Int := {tr.lean_ratio(ratios["_N0"])}\n\n'
+            '/-- `sort_lines`: `horizontal_ratio > p/q` (second half) -/\n'
+            f'def sortLinesHRatio : Int × Int := {tr.lean_ratio(ratios["_N1"])}\n\n'
+            '/-- `baseline_is_below`: `num_below / num_overlap > p/q` -/\n'
+            f'def baselineBelowRatio : Int × Int := {tr.lean_ratio(below)}\n\n'
+            '/-- threshold (p, q) that reaches `is_horizontally_overlapping` from `PageXMLTextRegion.__lt__` -/\n'
+            f'def regionHOverlapThr : Int × Int := {tr.lean_ratio(reg_thr)}\n\n'
+            'end Pagexml.Generated.C15\n')
+        return {'PagexmlModel/Generated/C15.lean': body}
 
     # ---------------------------------------------------------------- generation
     def cases(self, rng: random.Random, tier: str) -> Iterable[Case]:
@@ -798,7 +846,11 @@ C15.level_note = (
     'for every sort function meeting it; a stable insertion sort is proved to meet it); float threshold comparisons equal '
     'the exact rational ones; object identity = id equality. Not modelled: explicit reading order (C05), table regions, '
     'PageXMLPage.get_lines (row order is modelled for text-region / column roots), combine_adjacent_lines (not part of the '
-    'statement). The numeric literals 40 / 10 / 0.2 / 0.8 / 0.5 are hand-copied into the model and tied by the '
-    'correspondence (lattice pairs around the thresholds), not regenerated by a translator')
+    'statement). The numeric literals of the source (overlap limit 40 and the two tolerances 10 of is_next_to, the '
+    'ratios 0.2 / 0.8 of sort_lines, 0.5 of baseline_is_below, the threshold with which PageXMLTextRegion.__lt__ reaches '
+    'is_horizontally_overlapping) are REGENERATED from the working tree on every run (translate() -> Generated/C15.lean); '
+    'all proofs treat them as unknown numbers except the named relations C15_consts_* (two tolerances equal, limit >= 0, '
+    'ratio in [0,1), threshold >= 0, tolerance >= the 10 px of the oracle\'s reading of "aligned rows"), each decided on '
+    'the regenerated table')
 
 CHECK = C15()
